@@ -132,7 +132,11 @@ def candidates(gen, rng):
     p = lambda: gen._plain_atom()["name"]      # noqa
     v = rng.choice(gen.values)
     vn = v.name
-    nm = lambda: rng.choice(["Cand", "Xdef", "My-def", "D_1"]) + str(rng.randrange(1000))   # noqa
+    counter = [0]
+
+    def nm():
+        counter[0] += 1
+        return rng.choice(["Cand", "Xdef", "My-def", "D_1"]) + f"{rng.randrange(1000)}x{counter[0]}"
     gen.used = set()
     out = [
         (f"(Definition/{nm()}, ({p()}, {p()}))", True, "plain"),
